@@ -142,7 +142,7 @@ func (s Scenario) reachable() []string {
 
 // failedStartKinds: ways in which a start fails before (or, closedListener, right after) the server
 // begins to serve. Afterwards Shutdown must return at once and the same Server value must start.
-var failedStartKinds = []string{"closedUDP", "closedUDP", "closedListener", "closedPacketConn", "closedMemListener", "permanentAcceptErr", "permanentReadErr", "timeoutNotTemporaryAccept", "timeoutNotTemporaryRead", "nilListeners", "badAddrTCP", "badAddrUDP", "badNet", "portInUseTCP", "portInUseUDP", "tlsNoCert"}
+var failedStartKinds = []string{"closedUDP", "closedUDP", "closedListener", "closedPacketConn", "closedMemListener", "permanentAcceptErr", "permanentReadErr", "timeoutNotTemporaryAccept", "timeoutNotTemporaryRead", "nilListeners", "readerWithoutPacketConn", "readerWithoutPacketConn", "badAddrTCP", "badAddrUDP", "badNet", "portInUseTCP", "portInUseUDP", "tlsNoCert"}
 
 var transportsMem = []string{"memTCP", "memTCP", "memTCP", "memTLS", "memPacket", "memPacket", "memPacket"}
 var transportsReal = []string{"realUDP", "realTCP"}
